@@ -193,6 +193,21 @@ func (r *run) checkInput(p []byte, x []byte, intact bool, chunkMode, bufioSize, 
 	d := packedref.UnpackDetail(p)
 	out1, err1 := packed.Unpack(nil, p)
 	out2, err2 := streamUnpack(p, chunkMode, bufioSize, readSize, zero, -1)
+	// Unpack appends to dst: a recycled buffer with old bytes beyond its length, and a non-empty
+	// prefix, must give the same result as a fresh one
+	if r.cases%3 == 0 {
+		dirty := bytes.Repeat([]byte{0xa5}, d.MaxOut+24)
+		prefix := r.cases % 17
+		if prefix > len(dirty) {
+			prefix = 0
+		}
+		out3, err3 := packed.Unpack(dirty[:prefix], p)
+		if (err3 == nil) != (err1 == nil) || (err1 == nil && (len(out3) != prefix+len(out1) || !bytes.Equal(out3[prefix:], out1) || !bytes.Equal(out3[:prefix], bytes.Repeat([]byte{0xa5}, prefix)))) {
+			s.Fail("unpack_mismatch", "packed.go:Unpack", fmt.Sprintf("Unpack into a recycled buffer (%d bytes kept, old bytes beyond) of %s = %s / %v, into a fresh one %s / %v", prefix, short(p), short(out3), err3, short(out1), err1))
+			return false
+		}
+		s.Probe("unpack_into_recycled_buffer")
+	}
 	acceptable := d.Status == packedref.OK
 	site1 := "packed.go:Unpack"
 	site2 := "packed.go:(*Reader).ReadWord"
